@@ -43,7 +43,7 @@ def bounds(tier, seed):
 def check_perms(T, pool, keys):
     rep = yaml.representer.SafeRepresenter()
     for dn, Dm, Ld in DUMPERS:
-        for kind in ('dict', 'set', 'nested'):
+        for kind in ('dict', 'set', 'nested', 'after-unsortable'):
             for o in (SHAPE_OPTS if len(keys) <= 3 else SHAPE_OPTS[:2]):
                 texts = {}
                 for perm in itertools.permutations(keys):
@@ -63,8 +63,8 @@ def check_perms(T, pool, keys):
                         T.violation('insertion-order', 'sorted-text-depends-on-insertion-order', case,
                                     detail='sort_keys=True: insertion order %r gives %r but %r gives %r' % (list(a[1]), a[0], list(b[1]), b[0]))
                         break
-                    if kind == 'set':
-                        continue      # a set has no insertion order to preserve
+                    if kind in ('set', 'after-unsortable'):
+                        continue      # a set has no insertion order to preserve; the mixed document is for the sorted side only
                     # sort_keys off: keys appear in insertion order (composed node order), and load gives document order
                     try:
                         node = yaml.compose(t_off, Loader=yaml.SafeLoader)
@@ -92,6 +92,9 @@ def mk(kind, perm):
         for k in perm:
             s.add(k)
         return s
+    if kind == 'after-unsortable':
+        # a mapping whose keys cannot be ordered comes first in the same document; the containers after it are still sortable
+        return [{1: 'int key', 'a': 'str key'}, {k: val[k] for k in perm}, mk('set', perm), {None: 0, 'z': 1}, {k: val[k] for k in perm}]
     return [{'m': {k: [val[k]] for k in perm}, 's': mk('set', perm)}]
 
 
@@ -130,6 +133,7 @@ def seed_cases():
         out.append(('dict-str-%d' % n, lambda n=n: {k: i for i, k in enumerate(strs[:n])}))
         out.append(('set-in-list-%d' % n, lambda n=n: [set(strs[:n]), {'k': set(strs[1:n])}]))
         out.append(('frozen-order-%d' % n, lambda n=n: {k: {j for j in strs[:n] if j != k} for k in strs[:min(n, 4)]}))
+        out.append(('after-unsortable-%d' % n, lambda n=n: [{1: 0, 'a': 1}, set(strs[:n]), {k: 1 for k in strs[:n]}]))
     out.append(('set-bytes', lambda: {b'a', b'b', b'c', b'', b'\xff', b'ab'}))
     out.append(('set-int', lambda: {5, 3, 1, 10 ** 20, -7, 0}))
     out.append(('set-float', lambda: {0.5, -1.5, 1e10, 2.0}))
